@@ -87,6 +87,8 @@ def scan_codepoints(st, lo, hi, pair_contexts=("c",)):
             st.add("evaluations")
             if img != src:
                 st.add("nontrivial")
+            if cname == "c":
+                st.outcome("identity" if img == src else "prefixed" if img == "_" + src else "suffixed" if img == src + "_" else "normalised" if unicodedata.normalize("NFKC", src) in (img, img[1:]) else "labelled")
             for key in judge_image(src, img):
                 st.violation("%s:%s" % (key, _known_class(key, c, src, img)), "property name %r (U+%04X in context %s) maps to %r" % (src, cp, cname, img), {"name": src, "context": cname, "codepoint": cp, "image": img})
             groups.setdefault((cname, img), []).append(cp)
